@@ -72,6 +72,23 @@ def star_system():
   return n, sysd, st, symarr('u', (2,)), None
 
 
+def forest_system():
+  """Two articulated free-floating trees in one system: the second ROOT comes after a non-root link, so whatever assumes
+  "roots first" (or one root) pairs a joint force with the wrong reaction."""
+  n = 4
+  nq, nv = 16, 14
+  sysd = symsys.system('f1f1', (-1, 0, -1, 2), nq=nq, nv=nv, nu=2, vel_damping=0, ang_damping=sym('angdamp'))
+  sysd.f['dof'] = Struct('DoF', {
+      'motion': Struct('Motion', {'ang': symarr('da', (nv, 3)), 'vel': symarr('dv', (nv, 3))}, home='brax.base'),
+      'limit': (symarr('lo', (nv,)), symarr('hi', (nv,)))})
+  act = Struct('Actuator', {k: symarr(k, (2,)) for k in ('gain', 'gear', 'bias_q', 'bias_qd')})
+  act.f.update({'ctrl_range': symarr('cr', (2, 2)), 'force_range': symarr('fr', (2, 2)),
+                'q_id': np.array([7, 15]), 'qd_id': np.array([6, 13])})
+  sysd.f['actuator'] = act
+  st = symsys.state_maxcoord(n, q=symarr('q', (nq,)), qd=symarr('qd', (nv,)))
+  return n, sysd, st, symarr('u', (2,)), None
+
+
 def two_body_system():
   n = 2
   sysd = symsys.system('ff', (-1, -1), nq=14, nv=12, nu=0, vel_damping=0, ang_damping=sym('angdamp'))
@@ -236,6 +253,8 @@ def momentum(U, rep, tier, only=None):
   cases = [('spring', 'chain f-1-1, actuators, limits', chain_system),
            ('spring', 'two free bodies, two contacts', two_body_system),
            ('spring', 'star: free root with three children and a grandchild', star_system),
+           ('spring', 'forest: two free-floating trees f-1, f-1 with actuators (a root listed after a child)', forest_system),
+           ('positional', 'forest: two free-floating trees f-1, f-1 with actuators (a root listed after a child)', forest_system),
            ('positional', 'chain f-1-1, actuators, limits', chain_system),
            ('positional', 'star: free root with three children and a grandchild', star_system),
            ('positional', 'two free bodies, two contacts', two_body_system)]
